@@ -18,7 +18,22 @@ if ROOT not in sys.path:
 
 from sim.seedhash import H  # noqa: E402
 
-SESSION_CAP_S = 420
+# One session may take this long (SIGALRM raises SessionTimeout in the worker's
+# main thread: the session is then reported as not explored and the worker goes
+# on); the faulthandler backstop kills a worker that is stuck in native code.
+SESSION_CAP_S = {"quick": 600, "thorough": 1200}
+SESSION_KILL_S = 2400
+
+
+class SessionTimeout(BaseException):
+    """Not an Exception: the executors' `except Exception` (which turn library
+    errors into violations) must not swallow it."""
+
+
+def _on_alarm(signum, frame):
+    raise SessionTimeout()
+
+
 # wall-clock budget per batch (the registered commands run under `timeout 7000`)
 BUDGET_S = {"quick": 3000, "thorough": 5400}
 
@@ -71,7 +86,12 @@ def run_one(job):
     import faulthandler
 
     pid, tier, j, seed, engine = job["pid"], job["tier"], job["j"], job["seed"], job["engine"]
-    faulthandler.dump_traceback_later(SESSION_CAP_S, exit=True)
+    import signal
+
+    faulthandler.dump_traceback_later(SESSION_KILL_S, exit=True)
+    __import__("sim." + engine)  # imports (jax, genjax) are never interrupted
+    signal.signal(signal.SIGALRM, _on_alarm)
+    signal.alarm(int(os.environ.get("VERIF_SESSION_CAP_S") or SESSION_CAP_S.get(tier, 600)))
     t0 = time.time()
     out = {"j": j, "seed": seed, "pid": pid}
     try:
@@ -96,9 +116,12 @@ def run_one(job):
             out.update(distsim.run_session(seed, pid, tier, job.get("script")))
         else:
             raise ValueError(engine)
+    except SessionTimeout:
+        out = {"j": j, "seed": seed, "pid": pid, "timed_out": True}
     except Exception as e:
         out["harness_error"] = "%s: %s\n%s" % (type(e).__name__, str(e)[:500], traceback.format_exc()[-1500:])
     finally:
+        signal.alarm(0)
         faulthandler.cancel_dump_traceback_later()
     out["wall"] = time.time() - t0
     return out
@@ -200,7 +223,10 @@ def main_check(pid, tier, seed, workers, sessions=None, keep_going=False):
         jb["deadline"] = t0 + budget
     results = run_jobs(jobs, workers)
     not_started = [r for r in results if r.get("not_started")]
-    results = [r for r in results if not r.get("not_started")]
+    timed_out = [r for r in results if r.get("timed_out")]
+    results = [r for r in results if not r.get("not_started") and not r.get("timed_out")]
+    for r in timed_out:
+        print("session %d (seed %d) exceeded the per-session cap: not explored (replayable with its seed)" % (r["j"], r["seed"]))
     if not_started:
         print("wall-clock budget of %ds reached: %d of %d sessions explored" % (budget, len(results), n))
     if not results:
